@@ -2,7 +2,7 @@
 #include "h.h"
 
 #define MAXTH 6
-enum { M_MERGE, M_SUSPEND_RESUME, M_PAUSE };
+enum { M_MERGE, M_SUSPEND_RESUME, M_PAUSE, M_REPLACE_HANDLER };
 typedef struct mop { int idx, kind; uint64_t val; int burst; } mop;
 static struct {
 	dispatch_source_t ds; int type;      // 0 ADD, 1 OR, 2 REPLACE
@@ -73,6 +73,11 @@ static void *merger(void *arg) {
 			dispatch_resume(D.ds);
 			break;
 		case M_PAUSE: sim_sleep_ns(op->val); break;
+		case M_REPLACE_HANDLER:
+			// the handler may be replaced while events flow (here by one that does the same): nothing is lost or delivered twice
+			h_log("replace event handler");
+			if (op->burst & 1) dispatch_source_set_event_handler(D.ds, ^{ handler(NULL); }); else dispatch_source_set_event_handler_f(D.ds, handler);
+			break;
 		}
 		sim_point();
 	}
@@ -97,7 +102,7 @@ static void c15_run(void) {
 		for (int i = 0; i < D.nops[t]; i++) {
 			mop *op = &D.ops[t][i]; op->idx = idx++;
 			uint32_t r = g_n(100);
-			op->kind = r < 70 ? M_MERGE : r < 85 ? M_SUSPEND_RESUME : M_PAUSE;
+			op->kind = r < 66 ? M_MERGE : r < 80 ? M_SUSPEND_RESUME : r < 88 ? M_REPLACE_HANDLER : M_PAUSE;
 			op->val = op->kind == M_PAUSE ? (uint64_t)g_range(1, 200) * USEC : D.type == 1 ? (1ull << g_n(20)) : 1 + g_n(1000);
 			op->burst = g_range(1, 4);
 		}
@@ -110,6 +115,7 @@ static void c15_run(void) {
 			mop *op = &D.ops[t][i];
 			if (op->kind == M_MERGE) h_sample(" #%d merge(%lu)", op->idx, (unsigned long)op->val);
 			else if (op->kind == M_SUSPEND_RESUME) h_sample(" #%d suspend+%d merges+resume", op->idx, op->burst);
+			else if (op->kind == M_REPLACE_HANDLER) h_sample(" #%d replace-handler", op->idx);
 			else h_sample(" #%d pause", op->idx);
 		}
 		h_sample("\n");
@@ -124,7 +130,7 @@ static void c15_run(void) {
 	D.ds = dispatch_source_create(D.type == 0 ? DISPATCH_SOURCE_TYPE_DATA_ADD : D.type == 1 ? DISPATCH_SOURCE_TYPE_DATA_OR : DISPATCH_SOURCE_TYPE_DATA_REPLACE, 0, 0, D.tq);
 	if (!D.ds) h_viol("create", "dispatch_source_create failed");
 	sim_watch(D.ds, 160);
-	dispatch_source_set_event_handler_f(D.ds, handler);
+	if (g_chance(1, 2)) dispatch_source_set_event_handler(D.ds, ^{ handler(NULL); }); else dispatch_source_set_event_handler_f(D.ds, handler);
 	if (!D.late_activate) dispatch_activate(D.ds);
 	int hm = D.handler_merges_left;
 	sim_thread *th[MAXTH];
